@@ -4,7 +4,6 @@
   (proofs in BC/Lemmas/SrcFilter.lean).  Core-only, generic in the number type.
 -/
 import BC.Lemmas.SrcFilter
-import BC.Lemmas.SrcLoop
 namespace BC.Props.C11
 open BC BC.Gen BC.Model BC.Lemmas
 set_option linter.unusedSectionVars false
@@ -17,31 +16,6 @@ theorem C11_src_should_record (f : TFilter α) (fuel : Nat) (p v : Vec α) (m t 
     Src.filter_should_record f fuel p v m t = f.shouldRecord fuel p v m t := SrcFilter.should_record_eq f fuel p v m t
 theorem C11_src_clear_current_flag (f : TFilter α) :
     Src.filter_clear_current_flag f = { f with currentFlag := fNONE } := SrcFilter.clear_current_flag_eq f
-
-/-- ONE ITERATION OF THE LOOP: the model's `iterate` is the whole body of the `while` loop of `_integrate`, executed symbolically from
-    the source (`Src.loop_body`), for every loop state (BC/Lemmas/SrcLoop.lean) -/
-theorem C11_src_iterate (r : Run α) (air : α → α × α) (ff : Flags) (sf : Nat) (l : LoopSt α)
-    (hair : ∀ a, r.env.air a = some (air a))
-    (hmax : l.ws.maxDist = cMaxWindDistanceFeet)
-    (hm : nz (air (r.alt0 + l.s.pos.y)).2 = true)
-    (hd : ∀ d, (({ l.flt with currentFlag := fNONE } : TFilter α).shouldRecord sf l.s.pos l.s.vel (air (r.alt0 + l.s.pos.y)).2 l.s.time).2 = some d →
-      nz d.mach = true) :
-    iterate r ff sf l =
-      match (Src.loop_body r air ff sf l).reason with
-      | some reason => .error (.range reason ((Src.loop_body r air ff sf l).limitRow :: (Src.loop_body r air ff sf l).rows).reverse)
-      | none => .ok ⟨(Src.loop_body r air ff sf l).st, (Src.loop_body r air ff sf l).ws, (Src.loop_body r air ff sf l).flt,
-                     (Src.loop_body r air ff sf l).rows, (Src.loop_body r air ff sf l).drag, (Src.loop_body r air ff sf l).mach,
-                     (Src.loop_body r air ff sf l).density, (Src.loop_body r air ff sf l).speed, (Src.loop_body r air ff sf l).lastX⟩ :=
-  SrcLoop.iterate_eq r air ff sf l hair hmax hm hd
-
-/-- the `while` loop: test the source's loop condition, run the source's loop body -/
-theorem C11_src_loop (r : Run α) (ff : Flags) (sf : Nat) (maxRange minStep : α) (fuel : Nat) (l : LoopSt α) :
-    loop r ff sf (maxRange + minStep) maxRange (fuel + 1) l =
-      if Src.loop_condition l.s.pos.x maxRange minStep l.lastX then
-        match iterate r ff sf l with
-        | .error e => .error e
-        | .ok l' => loop r ff sf (maxRange + minStep) maxRange fuel l'
-      else .ok l := SrcLoop.loop_eq r ff sf maxRange minStep fuel l
 
 end
 end BC.Props.C11
